@@ -727,6 +727,9 @@ func FunctionMap() map[string]physical.FunctionDetails {
 					OutputType:    octosql.String,
 					Strict:        true,
 					Function: func(values []octosql.Value) (octosql.Value, error) {
+						if values[1].Int < 0 {
+							return octosql.ZeroValue, fmt.Errorf("substring start index must not be negative, got %d", values[1].Int)
+						}
 						if int64(len(values[0].Str)) <= values[1].Int {
 							return octosql.NewString(""), nil
 						}
@@ -738,11 +741,17 @@ func FunctionMap() map[string]physical.FunctionDetails {
 					OutputType:    octosql.String,
 					Strict:        true,
 					Function: func(values []octosql.Value) (octosql.Value, error) {
+						if values[1].Int < 0 {
+							return octosql.ZeroValue, fmt.Errorf("substring start index must not be negative, got %d", values[1].Int)
+						}
+						if values[2].Int < 0 {
+							return octosql.ZeroValue, fmt.Errorf("substring length must not be negative, got %d", values[2].Int)
+						}
 						if int64(len(values[0].Str)) <= values[1].Int {
 							return octosql.NewString(""), nil
 						}
 						end := values[1].Int + values[2].Int
-						if end > int64(len(values[0].Str)) {
+						if end < values[1].Int || end > int64(len(values[0].Str)) { // the first condition is integer overflow
 							end = int64(len(values[0].Str))
 						}
 						return octosql.NewString(values[0].Str[values[1].Int:end]), nil
